@@ -1,8 +1,8 @@
-\* one device type x 3 minors (totals 0 / 100), 2 pods, requests 50 / 100 percent of 1..2 devices; complete state space
+\* two device types x 2 minors, 2 pods, requests 50 / 100 percent of 1..2 devices; complete state space
 SPECIFICATION MSpec
 CONSTANTS
-  Types = {"gpu"}
-  Minors = {0, 1, 2}
+  Types = {"gpu", "rdma"}
+  Minors = {0, 1}
   Pods = {"p0", "p1"}
   MaxCnt = 2
   Amounts = {50, 100}
